@@ -102,7 +102,7 @@ FIRST = {
     'l02-C02': 'missed -> T2 plain-sort-always-attempted (nothing in the first stage of the key sort throws, or sets a Python error of its own, before PyList_Sort has run)',
     'l07-C07': 'missed -> W1 reorder-whenever-the-key-orders-differ (from the "differ" outcome of the key-list comparison every path passes the loop with the placing copy)',
     'l15-C15': 'missed -> E1 cleanup-handler-catches-everything (the handler that cleans the guard set is `catch (...)`; a Python exception is not a std::runtime_error)',
-    'm05-C05': 'caught', 'm03-C03': 'caught', 'm04-C04': 'caught (the same change as h01 / j04 / k04, a fourth time)', 'm08-C08': 'caught', 'm09-C09': 'caught', 'm10-C10': 'caught',
+    'm05-C05': 'caught', 'm03-C03': 'caught', 'm04-C04': 'caught (the same change as h01 / j04 / k04, a fourth time)', 'm08-C08': 'missed by C08 (M4 reported it under C04 / C09) -> M4 now also decides C08', 'm09-C09': 'caught', 'm10-C10': 'caught',
     'm14-C14': 'caught (the same change as j14 / k14)', 'm19-C19': 'caught', 'm20-C20': 'caught',
     'm12-C12': 'missed -> G3 no-blind-rollback (an exception handler round the engine call does not make the opposite engine call without a test of its own)',
     'g09-C09': 'caught', 'g10-C10': 'caught', 'g13-C13': 'caught', 'g18-C18': 'caught', 'g20-C20': 'caught',
